@@ -1,12 +1,16 @@
 #!/bin/sh
-# tools/try_seed.sh <patch.diff> <ID> [<ID>...]: apply a seeded change to /repo, run the quick checks, undo it.
+# tools/try_seed.sh <patch.diff> <ID> [<ID>...]: apply a seeded change to a scratch worktree of /repo's HEAD (never /repo itself),
+# run the quick checks against it (VERIF_REPO), remove the worktree.
 patch="$1"; shift
-git -C /repo apply "$patch" 2>/dev/null || (cd /repo && patch -p1 -F3 -s --no-backup-if-mismatch < "$patch") || { echo "patch does not apply"; git -C /repo checkout -- .; exit 2; }
+wt=/tmp/tryseed-$$
+git -C /repo worktree add -q --detach $wt HEAD || exit 2
+cp /repo/src/execnet/_version.py $wt/src/execnet/_version.py
+git -C $wt apply "$patch" 2>/dev/null || (cd $wt && patch -p1 -F3 -s --no-backup-if-mismatch < "$patch") || { echo "patch does not apply"; git -C /repo worktree remove --force $wt; exit 2; }
 for id in "$@"; do
-  /verif/check "$id" --tier quick > /tmp/try_seed.$$.log 2>&1
+  VERIF_REPO=$wt /verif/check "$id" --tier quick > /tmp/try_seed.$$.log 2>&1
   rc=$?
   echo "== $id rc=$rc: $(grep -c '^VIOLATION' /tmp/try_seed.$$.log) violations; $(grep -m1 'what:' /tmp/try_seed.$$.log | cut -c1-220)"
   [ $rc -eq 2 ] && tail -5 /tmp/try_seed.$$.log
 done
 rm -f /tmp/try_seed.$$.log
-git -C /repo checkout -- .
+git -C /repo worktree remove --force $wt
